@@ -60,7 +60,7 @@ def stream(cid, idx, rng, same_prefix, nsteps):
             steps.append({"op": "vacuum", "c": cid, "cutoff": 50})
     if intx:
         steps.append({"op": "commit", "c": cid})
-    steps += [{"op": "conn_get", "c": cid}, {"op": "rows", "c": cid}]
+    steps += [{"op": "conn_get", "c": cid}, {"op": "rows", "c": cid}, {"op": "refresh", "c": cid}, {"op": "rows", "c": cid}]
     return steps
 
 
@@ -91,7 +91,22 @@ def run(prop, tier):
                      "cfg": {"cols": ["a", "b"], "epn": epn, "cache": rng.choice([0, 8]), "log_nodes": 0, "log_reads": 0,
                              "same_prefix": 1 if same else 0, "after": after},
                      "clients": clients})
-    vf.log("%d concurrent scenarios (2/4/8 goroutines), race detector on" % n)
+    # tables without s3_bucket: the process-wide, lazily created in-memory bucket (open.go) - each scenario in a fresh
+    # process so that the first in-memory opens of the process overlap; requests are proxied and logged
+    nmem = 12 if tier == "quick" else 150
+    for i in range(nmem):
+        m = rng.choice([2, 3, 4])
+        same = rng.random() < 0.5
+        clients = {}
+        for j in range(m):
+            cid = "t%d" % j
+            clients[cid] = [st for st in stream(cid, j, rng, True, rng.randrange(4, 10)) if st["op"] != "vacuum"]
+        after = [{"op": "open", "c": "z1", "mode": "rw", "tag": "final"}, {"op": "open", "c": "z2", "mode": "ro", "tag": "final"}]
+        scen.append({"id": "c19-mem-%d" % i, "kind": "threads", "features": ["in_memory", "same_prefix" if same else "different_prefixes"],
+                     "cfg": {"cols": ["a", "b"], "epn": 0, "cache": 0, "log_nodes": 0, "log_reads": 0, "inmem": 1, "fresh_process": 1,
+                             "same_prefix": 1 if same else 0, "after": after},
+                     "clients": clients})
+    vf.log("%d concurrent scenarios (2/4/8 goroutines; %d on the process-wide in-memory bucket, fresh process each), race detector on" % (len(scen), nmem))
     traces, info = vf.run_harness(binary, scen, workdir, shards=4)
     vf.log("executed %d scenarios in %.1fs (crashes=%d hangs=%d)" % (len(scen), info["wall"], info["crashes"], info["hangs"]))
     viols, events, mstates, mwall = vf.run_monitor(workdir, traces, [prop])
